@@ -9,6 +9,7 @@ func init() {
 		checkDecryptHelper(c, "C14")
 		// receivers try every installed key; keys come from the keyring
 		checkKeyUse(c)
+		checkAADConcat(c, "C14")
 		checkRemoveExact(c)
 	})
 	register("C16", func(c *Ctx) {
